@@ -91,6 +91,9 @@ func genOp(r *simrt.RNG, weights []int) Op {
 func genOp1(r *simrt.RNG, weights []int) Op {
 	switch r.Pick(weights...) {
 	case 0:
+		if r.Chance(0.1) {
+			return Op{K: "hello"}
+		}
 		return Op{K: "hdr", A: 1 + r.Intn(4)}
 	case 1:
 		return Op{K: "gen", A: 1 + r.Intn(4)}
